@@ -29,9 +29,23 @@ static int srqv[32], srqn;
 static char outb[256];
 static size_t outn;
 
+/* srqmode = 1 / 2: the service-request handler re-enters the library, once per operation that began with MSS clear:
+   1 clears the event registers whose summary bits it is shown, 2 takes the oldest error out and reports -300 of its own */
+static int srqmode, srq_armed;
 static scpi_result_t on_control(scpi_t * c, scpi_ctrl_name_t n, scpi_reg_val_t v) {
-    (void) c;
     if (n == SCPI_CTRL_SRQ && srqn < 32) srqv[srqn++] = v;
+    if (n == SCPI_CTRL_SRQ && srqmode && srq_armed) {
+        srq_armed = 0;
+        if (srqmode == 1) {
+            if (v & 0x20) SCPI_RegSet(c, SCPI_REG_ESR, 0);
+            if (v & 0x80) SCPI_RegSet(c, SCPI_REG_OPER, 0);
+            if (v & 0x08) SCPI_RegSet(c, SCPI_REG_QUES, 0);
+        } else {
+            scpi_error_t e;
+            SCPI_ErrorPop(c, &e);
+            SCPI_ErrorPush(c, -300);
+        }
+    }
     return SCPI_RES_OK;
 }
 /* nested = 1 / 2: the application takes an error out of the queue / empties the queue in every announcement of an error */
@@ -86,7 +100,7 @@ static int regindex(const char * n) {
     exit(3);
 }
 
-typedef struct { char kind[12]; char name[24]; long val; int hasval; } op_t;
+typedef struct { char kind[12]; char name[24]; long val; int hasval; char wrap[8]; } op_t;      /* wrap: "" / srqclr / srqpp */
 
 static void fresh(void) {
     memset(eq_store, 0, sizeof eq_store);
@@ -104,7 +118,17 @@ static void print_state(FILE * f) {
     fprintf(f, "]}");
 }
 
+static void print_op0(FILE * f, const op_t * o);
 static void print_op(FILE * f, const op_t * o) {
+    if (o->wrap[0]) {
+        char tmp[160];
+        FILE * m = fmemopen(tmp, sizeof tmp, "w");
+        print_op0(m, o);
+        fclose(m);
+        fprintf(f, "[\"%s\",%s", o->wrap, tmp + 1);
+    } else print_op0(f, o);
+}
+static void print_op0(FILE * f, const op_t * o) {
     if (!strcmp(o->kind, "set") || !strcmp(o->kind, "setbits") || !strcmp(o->kind, "clrbits"))
         fprintf(f, "[\"%s\",\"%s\",%ld]", o->kind, o->name, o->val);
     else if (!strncmp(o->kind, "push", 4)) fprintf(f, "[\"%s\",%ld]", o->kind, o->val);
@@ -119,6 +143,8 @@ static int nresp;
 
 static void apply(const op_t * o) {
     srqn = 0; outn = 0; nresp = 0;
+    srqmode = !strcmp(o->wrap, "srqclr") ? 1 : !strcmp(o->wrap, "srqpp") ? 2 : 0;
+    srq_armed = !(ctx.registers[SCPI_REG_STB] & 0x40);
     if (!strcmp(o->kind, "set")) SCPI_RegSet(&ctx, regindex(o->name), (scpi_reg_val_t) o->val);
     else if (!strcmp(o->kind, "setbits")) SCPI_RegSetBits(&ctx, regindex(o->name), (scpi_reg_val_t) o->val);
     else if (!strcmp(o->kind, "clrbits")) SCPI_RegClearBits(&ctx, regindex(o->name), (scpi_reg_val_t) o->val);
@@ -138,6 +164,7 @@ static void apply(const op_t * o) {
         outb[outn] = 0;
         if (outn > 0) resp[nresp++] = strtol(outb, NULL, 10);
     } else { fprintf(stderr, "bad op %s\n", o->kind); exit(3); }
+    srqmode = 0;
 }
 
 static void record(FILE * f, const char * from, const op_t * o) {
@@ -170,9 +197,10 @@ static void load_ops(const char * path) {
     ops = calloc(100000, sizeof(op_t));
     while (fgets(line, sizeof line, f)) {
         op_t * o = &ops[nops];
-        char a[32] = "", b[32] = "", c[32] = "";
-        int k = sscanf(line, "%31s %31s %31s", a, b, c);
+        char a[32] = "", b[32] = "", c[32] = "", d[32] = "";
+        int k = sscanf(line, "%31s %31s %31s %31s", a, b, c, d);
         if (k < 1) continue;
+        if (!strcmp(a, "srqclr") || !strcmp(a, "srqpp")) { strcpy(o->wrap, a); strcpy(a, b); strcpy(b, c); strcpy(c, d); k--; }
         strcpy(o->kind, a);
         if (!strncmp(a, "push", 4)) { o->val = atol(b); }
         else if (k >= 2) { strcpy(o->name, b); if (k == 3) { o->val = atol(c); o->hasval = 1; } }
@@ -229,6 +257,8 @@ static int explore(const char * opsfile, long maxstates, const char * outpath) {
         for (i = 0; i < nops; i++) {
             unsigned h;
             restore(&states[head]);
+            /* srqclr around a push onto a full queue is left out (see ScpiStatusNested: the order of two writes would show) */
+            if (!strcmp(ops[i].wrap, "srqclr") && !strcmp(ops[i].kind, "push") && ctx.error_queue.count >= ctx.error_queue.size) continue;
             apply(&ops[i]);
             record(f, from, &ops[i]);
             ntrans++;
@@ -298,6 +328,12 @@ static int walk(unsigned long seedv, long steps, const char * outpath) {
         else if (r < 66) strcpy(o.kind, "count");
         else if (r < 88) { strcpy(o.kind, "cmd"); strcpy(o.name, cmd0[rnd() % (sizeof cmd0 / sizeof cmd0[0])]); }
         else { strcpy(o.kind, "cmd"); strcpy(o.name, cmd1[rnd() % 4]); o.val = rndval(); o.hasval = 1; }
+        /* one operation in six runs under a re-entering service-request handler (not the nested pushes; not srqclr around
+           a push onto a full queue, where the order of two writes inside the library would show) */
+        if (rnd() % 6 == 0 && strcmp(o.kind, "pushpop") && strcmp(o.kind, "pushclr")) {
+            strcpy(o.wrap, (rnd() & 1) ? "srqclr" : "srqpp");
+            if (!strcmp(o.wrap, "srqclr") && !strcmp(o.kind, "push") && ctx.error_queue.count >= ctx.error_queue.size) o.wrap[0] = 0;
+        }
         apply(&o);
         record(f, from, &o);
         if (rnd() % 5000 == 0) fresh();
